@@ -52,6 +52,13 @@ CHECKS = {
         "note": "The known overshoot mechanisms are keyed by when the extra executions start relative to the M-th completion, so a different overshoot (e.g. work picked up long after the limit was hit) is still reported.",
         "ref": "DESIGN.md 5/C10",
     },
+    "C11": {
+        "level": "exploration",
+        "technique": "runtime monitoring: who-ran-what attribution (every generated actor logs its registration) against a last-wins reference table + post-run broker audit of foreign messages",
+        "text": "Random registration tables (<= 4 routers, 6 names, 3 queues, overrides within and across routers, forced moves of a name to another queue) are included into real Workers; jobs over the (name, queue) product are enqueued with foreign messages in front of own ones; tasks_limit 1/3/1000; three brokers. Every actor start must come from the winning registration and only for the queue that registration serves; Worker.actors must equal the last-wins union; foreign messages must end where they were, never executed, counter unchanged; own messages behind them must run within a bound; two workers with disjoint topics on one queue must execute everything exactly once.",
+        "note": "Virtual time; fakes; RabbitMQ requeue-to-head (rule R4) makes the reject-requeue parking of foreign messages block or livelock: known findings keyed by 'prefetch window <= foreign messages' and 'two-workers'.",
+        "ref": "DESIGN.md 5/C11",
+    },
     "C12": {
         "level": "exploration",
         "technique": "runtime monitoring: expiry oracle over observed actor-start and first-seen-dead instants (per-loop-iteration state probe) on a virtual clock with exact boundary placement",
